@@ -29,6 +29,8 @@ type Mutant struct {
 
 var Mutants = map[string][]Mutant{
 	"C01": {
+		{"absorbed segment keeps the other path's windings (same path)", "path_intersection.go", `\t\t\ts\.selfWindings \+= prev\.selfWindings\n\t\t\ts\.otherSelfWindings \+= prev\.otherSelfWindings\n`, "\t\t\ts.selfWindings += prev.selfWindings\n", "E9.absorb-conserves"},
+		{"absorbed segment handed over straight across paths", "path_intersection.go", `\t\t\ts\.selfWindings \+= prev\.otherSelfWindings\n\t\t\ts\.otherSelfWindings \+= prev\.selfWindings\n`, "\t\t\ts.selfWindings += prev.selfWindings\n\t\t\ts.otherSelfWindings += prev.otherSelfWindings\n", "E9.absorb-conserves"},
 		{"islands reversed like holes", "path_intersection.go", `if windings%2 != 0 \{`, "if 0 < windings {", "E9.hole-parity"},
 		{"result windings copied to the other end point only when incremented", "path_intersection.go", `\t\t\t\t\tcur\.resultWindings\+\+\n\t\t\t\t\}\n\t\t\t\tcur\.other\.resultWindings = cur\.resultWindings\n\t\t\t\tcur\.other\.inResult--`, "\t\t\t\t\tcur.resultWindings++\n\t\t\t\t\tcur.other.resultWindings = cur.resultWindings\n\t\t\t\t}\n\t\t\t\tcur.other.inResult--", "E9.windings-sync"},
 		{"merged segment keeps its link to an absorbed segment", "path_intersection.go", `\ts\.other\.inResult = s\.inResult\n\ts\.prev = prev\n`, "\ts.other.inResult = s.inResult\n", "E9.absorbed-link"},
@@ -38,6 +40,9 @@ var Mutants = map[string][]Mutant{
 		{"empty Q returns P for And", "path_intersection.go", `if op == opAND \{\n\t\t\treturn &Path\{\}\n\t\t\}\n\t\treturn ps\.Settle\(fillRule\)`, `return ps.Settle(fillRule)`, "E9.shortcut"},
 	},
 	"C02": {
+		{"tolerance square range starts at the reference node below", "path_intersection.go", `// this is set if the reference node is below the square\n\t\t\t\t\t\tsquare\.Lower = next\n`, "// this is set if the reference node is below the square\n\t\t\t\t\t\tsquare.Lower = square.Node\n", "E9.square-range"},
+		{"contour depth read from the segment directly below", "path_intersection.go", `\t\t\tfor prev != nil && !prev\.resultEdge \{\n[^\n]*\n\t\t\t\tprev = prev\.prev\n\t\t\t\}\n`, "", "E9.depth-from-result-edge"},
+		{"result-edge flag taken after inResult is consumed", "path_intersection.go", `\t\t\tevent\.resultEdge = 0 < event\.inResult\n`, "\t\t\tevent.resultEdge = event.left\n", "E9.depth-from-result-edge"},
 		{"islands reversed like holes", "path_intersection.go", `if windings%2 != 0 \{`, "if 0 < windings {", "E9.hole-parity"},
 		{"result windings copied to the other end point only when incremented", "path_intersection.go", `\t\t\t\t\tcur\.resultWindings\+\+\n\t\t\t\t\}\n\t\t\t\tcur\.other\.resultWindings = cur\.resultWindings\n\t\t\t\tcur\.other\.inResult--`, "\t\t\t\t\tcur.resultWindings++\n\t\t\t\t\tcur.other.resultWindings = cur.resultWindings\n\t\t\t\t}\n\t\t\t\tcur.other.inResult--", "E9.windings-sync"},
 		{"merged segment keeps its link to an absorbed segment", "path_intersection.go", `\ts\.other\.inResult = s\.inResult\n\ts\.prev = prev\n`, "\ts.other.inResult = s.inResult\n", "E9.absorbed-link"},
@@ -46,6 +51,8 @@ var Mutants = map[string][]Mutant{
 		{"Paths.Settle ignores its rule", "path_intersection.go", `return bentleyOttmann\(ps, nil, opSettle, fillRule\)`, `return bentleyOttmann(ps, nil, opSettle, NonZero)`, "E9.wrapper"},
 	},
 	"C03": {
+		{"quadratic flattener loses its tolerance clamp", "path_util.go", `(2005,  https://www\.sciencedirect\.com/science/article/pii/S0097849305001287\n)\ttolerance = math\.Max\(tolerance, Epsilon\)[^\n]*\n(\tt := 0\.0\n\tp := &Path\{\}\n\tp\.MoveTo\(p0\.X, p0\.Y\)\n\tfor t < 1\.0 \{\n\t\tD := p1\.Sub\(p0\))`, "${1}${2}", "E4.step-progress"},
+		{"cubic stroker loses its tolerance clamp", "path_util.go", `\ttolerance = math\.Max\(tolerance, Epsilon\) // prevent infinite loop if user sets tolerance to zero\n\n`, "\n", "E4.step-progress"},
 		{"replace keeps the pen from before the rest is joined back", "path.go", `\t\t\ti = len\(p\.d\)\n\t\t\tp = p\.Join\(r\) // join the rest of the base path\n\t\t\} else \{\n\t\t\ti \+= cmdLen\(cmd\)\n\t\t\}\n\t\tstart = Point\{p\.d\[i-3\], p\.d\[i-2\]\}\n`, "\t\t\ti = len(p.d)\n\t\t\tstart = end\n\t\t\tp = p.Join(r) // join the rest of the base path\n\t\t} else {\n\t\t\ti += cmdLen(cmd)\n\t\t\tstart = Point{p.d[i-3], p.d[i-2]}\n\t\t}\n", "E2.pen-reread"},
 		{"quadratic flattener emits QuadTo", "path_util.go", `_, _, _, p0, p1, p2 = quadraticBezierSplit\(p0, p1, p2, t\)\n\t\tp\.LineTo\(p0\.X, p0\.Y\)`, "_, _, _, p0, p1, p2 = quadraticBezierSplit(p0, p1, p2, t)\n\t\tp.QuadTo(p1.X, p1.Y, p0.X, p0.Y)", "E10.command-set"},
 		{"replace does not restart at the remainder", "path.go", `\t\t\ti = len\(p\.d\)\n`, ``, "E10.replace-shape"},
@@ -135,6 +142,8 @@ var Mutants = map[string][]Mutant{
 		{"number table larger than the buffer", "path.go", `\t\t'A': 7,\n`, "\t\t'A': 8,\n", "E4.table-bound"},
 	},
 	"C12": {
+		{"IsSimilarity tests row lengths and the column dot product", "util.go", `(?s)(func \(m Matrix\) IsSimilarity\(\) bool \{.*?)\tc := m\[0\]\[0\]\*m\[1\]\[0\] \+ m\[0\]\[1\]\*m\[1\]\[1\]\n`, "${1}\tc := m[0][0]*m[0][1] + m[1][0]*m[1][1]\n", "E11.gram-consistency"},
+		{"PDF SetFill restores the opacity only for a changed paint", "renderers/pdf/writer.go", `(?s)\t\tw\.fill = fill\n\t\}\n\n[^\n]*\n\tif fill\.IsGradient\(\) \{\n\t\tw\.SetAlpha\(1\.0\)\n\t\} else if fill\.IsColor\(\) \{\n\t\tw\.SetAlpha\(float64\(fill\.Color\.A\) / 255\.0\)\n\t\}\n`, "\t\tw.fill = fill\n\t\tif fill.IsColor() {\n\t\t\tw.SetAlpha(float64(fill.Color.A) / 255.0)\n\t\t}\n\t}\n", "E6.memo-shared-state"},
 		{"miter limit only checked when the join is unchanged", "renderers/pdf/writer.go", `\t\tw\.lineJoin = lineJoin\n\t\}\n\tif lineJoin == 0 && miterLimit != w\.miterLimit \{`, "\t\tw.lineJoin = lineJoin\n\t} else if lineJoin == 0 && miterLimit != w.miterLimit {", "E6.memo-independent"},
 		{"PS writes a miter with a round gap natively", "renderers/ps/ps.go", "\\} else if _, ok := miter\\.GapJoiner\\.\\(canvas\\.BevelJoiner\\); !ok \\{\\n\\t\\t\\tstrokeUnsupported = true", "} else if miter.GapJoiner == nil {\n\t\t\tstrokeUnsupported = true", "E6.joiner-support"},
 		{"PDF writes arcs joins natively", "renderers/pdf/pdf.go", `if _, ok := style\.StrokeJoiner\.\(canvas\.ArcsJoiner\); ok \{\n\t\tstrokeUnsupported = true`, "if arcs, ok := style.StrokeJoiner.(canvas.ArcsJoiner); ok && math.IsNaN(arcs.Limit) {\n\t\tstrokeUnsupported = true", "E6.joiner-support"},
@@ -149,6 +158,8 @@ var Mutants = map[string][]Mutant{
 		{"PS eofill outside its guard", "renderers/ps/ps.go", `r\.w\.Write\(\[\]byte\(" fill"\)\)\n\t\t\}\n\t\tif style\.HasStroke\(\) && !strokeUnsupported \{\n\t\t\tr\.w\.Write\(\[\]byte\(" grestore"\)\)`, "r.w.Write([]byte(\" eofill\"))\n\t\t}\n\t\tif style.HasStroke() && !strokeUnsupported {\n\t\t\tr.w.Write([]byte(\" grestore\"))", "E6.enum"},
 	},
 	"C13": {
+		{"parentheses escaped only when their counts differ", "renderers/pdf/writer.go", "(\\t\\tv = strings\\.Replace\\(v, `\\(`, [^\\n]*\\n\\t\\tv = strings\\.Replace\\(v, `\\)`, [^\\n]*\\n)", "\t\tif strings.Count(v, \"(\") != strings.Count(v, \")\") {\n${1}\t\t}\n", "E5.string-escape"},
+		{"PDF colour components divided by an untested alpha", "renderers/pdf/writer.go", `\tif c\.A == 0 \{\n\t\treturn 0\.0, 0\.0, 0\.0\n\t\}\n`, "", "E4.alpha-division"},
 		{"opacity names remembered for the whole document", "renderers/pdf/writer.go", `(func \(w \*pdfWriter\) NewPage\((?:.*\n)*?\t\tgraphicsStates: )map\[float64\]pdfName\{\},`, "var sharedGS = map[float64]pdfName{}\n\n${1}sharedGS,", "E5.page-memo"},
 		{"literal strings no longer escape CR", "renderers/pdf/writer.go", `\t\tv = strings\.Replace\(v, "\\r", .*\n`, "", "E5.string-escape"},
 		{"parentheses escaped before the backslash", "renderers/pdf/writer.go", "\\t\\tv = strings\\.Replace\\(v, `\\\\`, `\\\\\\\\`, -1\\)\\n(\\t\\tv = strings\\.Replace\\(v, `\\(`, .*\\n)", "$1\t\tv = strings.Replace(v, `\\`, `\\\\`, -1)\n", "E5.string-escape"},
@@ -166,6 +177,8 @@ var Mutants = map[string][]Mutant{
 		{"stroke keeps even-odd star", "renderers/pdf/pdf.go", `\t\t\tif closed \{\n\t\t\t\tr\.w\.Write\(\[\]byte\(" s"\)\)\n\t\t\t\} else \{\n\t\t\t\tr\.w\.Write\(\[\]byte\(" S"\)\)\n\t\t\t\}\n\t\t\} else if style\.HasFill\(\) && style\.HasStroke\(\) \{`, "\t\t\tif closed {\n\t\t\t\tr.w.Write([]byte(\" s\"))\n\t\t\t} else {\n\t\t\t\tr.w.Write([]byte(\" S\"))\n\t\t\t}\n\t\t\tif style.FillRule == canvas.EvenOdd {\n\t\t\t\tr.w.Write([]byte(\"*\"))\n\t\t\t}\n\t\t} else if style.HasFill() && style.HasStroke() {", "E5.grammar"},
 	},
 	"C14": {
+		{"scanner remembers the next sub-path's start before closing the previous one", "path.go", `(?s)\tvar first Point\n(\topen := false\n.*?)\t\t\tif cmd == MoveToCmd && open \{\n[^\n]*\n\t\t\t\tras\.Line\(fixedPoint26_6\(first\.X\*dpmm, dy-first\.Y\*dpmm\)\)\n\t\t\t\}\n(.*?)\t\t\tfirst = Point\{p\.d\[i\+1\], p\.d\[i\+2\]\}\n\t\t\tras\.Start\(fixedPoint26_6\(p\.d\[i\+1\]\*dpmm, dy-p\.d\[i\+2\]\*dpmm\)\)\n(.*?)\t\tras\.Line\(fixedPoint26_6\(first\.X\*dpmm, dy-first\.Y\*dpmm\)\)\n`, "\tvar first fixed.Point26_6\n${1}\t\t\tif cmd == MoveToCmd {\n\t\t\t\tfirst = fixedPoint26_6(p.d[i+1]*dpmm, dy-p.d[i+2]*dpmm)\n\t\t\t\tif open {\n\t\t\t\t\tras.Line(first)\n\t\t\t\t}\n\t\t\t}\n${2}\t\t\tras.Start(first)\n${3}\t\tras.Line(first)\n", "E6.implicit-close"},
+		{"rasterizer strokes with a view-independent tolerance", "renderers/rasterizer/rasterizer.go", `\t\t\ttolerance /= math\.Max\(math\.Abs\(sx\), math\.Abs\(sy\)\)\n`, "\t\t\t_ = sx + sy\n", "E11.stroke-tolerance-view"},
 		{"hatch colour taken from the already converted pattern", "renderers/rasterizer/rasterizer.go", `\t\t\tif hatch, ok := style\.Fill\.Pattern\.\(\*canvas\.HatchPattern\); ok \{\n\t\t\t\tstyle\.Fill = hatch\.Fill`, "\t\t\tif hatch, ok := style.Fill.Pattern.SetColorSpace(r.colorSpace).(*canvas.HatchPattern); ok {\n\t\t\t\tstyle.Fill = hatch.Fill", "E12.colorspace-once"},
 		{"last open subpath not closed for the scanner", "path.go", `\tif open \{\n\t\t// implicitly close path\n\t\tras\.Line\(fixedPoint26_6\(first\.X\*dpmm, dy-first\.Y\*dpmm\)\)\n\t\}\n`, "", "E6.implicit-close"},
 		{"open flag also set by MoveTo", "path.go", `\t\t\topen = false\n\t\t\} else \{\n\t\t\topen = true\n`, "\t\t\topen = cmd == CloseCmd && false\n\t\t} else {\n\t\t\topen = false\n", "E6.implicit-close"},
@@ -193,6 +206,7 @@ var Mutants = map[string][]Mutant{
 		{"setter writes the stack", "canvas.go", `func \(c \*Context\) SetStrokeWidth\(width float64\) \{\n`, "func (c *Context) SetStrokeWidth(width float64) {\n\tc.stack = nil\n", "E11.ctx-setter"},
 	},
 	"C16": {
+		{"last line's gap taken from loop variables that may describe a dropped line", "text.go", `(?s)(\tlineSpacing := 1\.0 \+ lineStretch\n)(.*?)\t\tvar ascent, descent, bottom float64\n(.*?)\t\t_, _, descent, bottom := t\.lines\[len\(t\.lines\)-1\]\.Heights\(rt\.mode\)\n\t\ty \+= -bottom\*lineSpacing \+ descent\n`, "${1}\tvar ascent, descent, bottom float64\n${2}${3}\t\ty += -bottom + descent\n", "E11.stale-after-break"},
 		{"hyphen drawn at every flagged one-glyph penalty", "text.go", `items\[bi\]\.Size == 1 && glyphs\[bg\]\.Text == '\\u00AD' \{`, "items[bi].Flagged && items[bi].Size == 1 {", "E11.hyphen-guard"},
 		{"LinebreakGlyphs draws a hyphen at every flagged penalty", "text/linebreak.go", `if item\.Type == PenaltyType && item\.Flagged && item\.Width != 0\.0 \{`, "if item.Type == PenaltyType && item.Flagged {", "E11.hyphen-guard"},
 		{"newline of a CRLF pair owned by no item", "text/linebreak.go", `\t\t\tif glyph\.Text != '\\n' \|\| i == 0 \|\| glyphs\[i-1\]\.Text != '\\r' \{`, "\t\t\tif glyph.Text == '\\n' && 0 < i && glyphs[i-1].Text == '\\r' {\n\t\t\t\tcontinue\n\t\t\t}\n\t\t\t{", "E11.items-cover-glyphs"},
